@@ -25,7 +25,8 @@ func main() {
 	grep := flag.String("grep", "", "only print files whose path contains this")
 	flags := flag.String("flags", "json", "comma list: json,strict,equal,validate,builders,converters")
 	flag.Parse()
-	var source string
+	var source, splitMain, mainFile string
+	var extra []e2.InputSpec
 	f := smodel.Format(*format)
 	if *src != "" {
 		b, err := os.ReadFile(*src)
@@ -42,10 +43,29 @@ func main() {
 			Case struct {
 				Model  *smodel.Model   `json:"model"`
 				Models []*smodel.Model `json:"models"`
+				Cases  []struct {
+					Format   smodel.Format `json:"format"`
+					Model    *smodel.Model `json:"model"`
+					SplitPkg string        `json:"split_pkg"`
+					Moved    []string      `json:"moved"`
+				} `json:"cases"`
 			} `json:"case"`
 		}
 		var m *smodel.Model
-		if json.Unmarshal(raw, &probe) == nil && (probe.Case.Model != nil || len(probe.Case.Models) > 0) {
+		if json.Unmarshal(raw, &probe) == nil && len(probe.Case.Cases) > 0 {
+			c := probe.Case.Cases[0]
+			m = c.Model
+			f = c.Format
+			if c.SplitPkg != "" {
+				moved := map[string]bool{}
+				for _, n := range c.Moved {
+					moved[n] = true
+				}
+				a, b := smodel.RenderOpenAPISplit(m, c.SplitPkg, moved)
+				extra = append(extra, e2.InputSpec{Format: smodel.OpenAPI, Package: c.SplitPkg, Source: b, FileName: c.SplitPkg + ".json"})
+				splitMain = a
+			}
+		} else if json.Unmarshal(raw, &probe) == nil && (probe.Case.Model != nil || len(probe.Case.Models) > 0) {
 			m = probe.Case.Model
 			if m == nil {
 				m = probe.Case.Models[0]
@@ -58,6 +78,10 @@ func main() {
 		}
 		*pkg = m.Package
 		source = smodel.Render(f, m)
+		if splitMain != "" {
+			source = splitMain
+			mainFile = m.Package + ".json"
+		}
 	}
 	fmt.Println("==== schema")
 	fmt.Println(source)
@@ -89,7 +113,11 @@ func main() {
 	o.OpenAPI = has(*outs, "openapi")
 	work, _ := os.MkdirTemp("", "coggen")
 	defer os.RemoveAll(work)
-	p, err := e2.NewPipeline(work, "x", []e2.InputSpec{{Format: f, Package: *pkg, Source: source}}, o)
+	for _, x := range extra {
+		fmt.Println("==== schema of package " + x.Package)
+		fmt.Println(x.Source)
+	}
+	p, err := e2.NewPipeline(work, "x", append([]e2.InputSpec{{Format: f, Package: *pkg, Source: source, FileName: mainFile}}, extra...), o)
 	if err != nil {
 		fmt.Println("pipeline:", err)
 		os.Exit(1)
